@@ -299,7 +299,7 @@ fn vec_rt(data: &[f32; 2], n: usize) {
     core::mem::forget((buf, out, row, r));
 }
 
-// @vt prop=C33 tier=thorough bound="arbitrary input of 0..=14 bytes with column count 1 and an arbitrary discriminant byte (every documented discriminant and every undocumented one), arbitrary payload incl. length fields" outside="longer inputs; column counts > 1" timeout=1800 mem=16
+// @vt prop=C33,C23 tier=thorough bound="arbitrary input of 0..=14 bytes with column count 1 and an arbitrary discriminant byte (every documented discriminant and every undocumented one), arbitrary payload incl. length fields" outside="longer inputs; column counts > 1" timeout=1800 mem=16
 vt_proof! { unwind = 18; fn c33_deserialize_arbitrary_bytes_no_panic() {
     let mut data: [u8; 14] = kani::any();
     let n: usize = kani::any(); kani::assume(n <= 14);
